@@ -63,6 +63,10 @@ TABLE = {
     "seg-sib": "64 48 8b 04 f0",
     "call-far": "9a 78 56 34 12 34 12",
     "ljmp-mem": "ff 2c 25 00 10 00 00",
+    "vex-vnni": "c4 e2 6d 50 d9",          # printed with the `{vex}` pseudo prefix: instruction text that does not start with a letter
+    "vex-vnni-mem": "c4 e2 6d 50 5c 88 10",
+    "tail-62": "62",                        # `.byte 0x62` when it ends the section
+    "rex-alone": "40",
 }
 TABLE = {k: bytes.fromhex(v) for k, v in TABLE.items()}
 
